@@ -89,7 +89,11 @@ def linkfail_into(rep, prop):
     """A change on a parent whose propagation fails in one linked child (C16: the change shows up in every child it
     can; C18: never a silently stale table).  P and the healthy child C2 are judged with the documented rule over
     the method set with the new method - or, if the registration was refused as a whole, without it."""
-    res = pool.run(workers.linkfail_cases, [{"id": f"{prop}-linkfail-{o}", "order": o} for o in ("c1first", "c2first")], procs=2)
+    jobs = [{"id": f"{prop}-linkfail-{o}", "order": o} for o in ("c1first", "c2first")]
+    if prop == "C16":
+        # ... and a change whose rebuild of the parent itself is cut short by an interrupt
+        jobs += [{"id": f"{prop}-linkfail-interrupt-{o}", "order": o, "kind": "interrupt"} for o in ("c1first", "c2first")]
+    res = pool.run(workers.linkfail_cases, jobs, procs=2)
     bugs = [c for c in res if "skip" in c]
     if bugs:
         rep.machinery_failure("harness error (link failure): " + bugs[0]["skip"])
